@@ -35,6 +35,10 @@ def scenario_sources(prop, args):
         "shared_buffer_2sub": configs.cfg(2, ["FC"], [configs.NOQ, M("SRQ", "a8a", "w8c"), M("DRQ", "-", "w8c"), M("WO", "-", "w8c"), M("WO", "-", "w8t"), M("F16")],
                                           [configs.NOQ], [configs.NOQ], share="buffer", max_sub=2),
     }
+    # three references to one constant (a tensor read twice and a tied tensor, or three tied tensors): the sharers are compared
+    # with the first one, so the third may disagree while the second agrees
+    fams["shared_3refs"] = configs.cfg(3, ["FC"], [], [], [configs.NOQ], share="buffer",
+                                       km={"FC": [configs.NOQ, M("DRQ", "-", "w8c")] + ([M("WO", "-", "w8c")] if args.tier == "thorough" else [])})
     if args.tier == "thorough":
       fams["shared_3op"] = configs.cfg(3, ["FC", "EW2"], [configs.NOQ, M("SRQ", "a8a", "w8c"), M("DRQ", "-", "w8c"), M("WO", "-", "w8c")],
                                        [configs.NOQ, M("SRQ", "a8a", "w8c")], [configs.NOQ], share="buffer")
